@@ -323,8 +323,10 @@ def run(pid: str, tier: str, seed: int, selftest=False, replay=None) -> int:
         # (the machine's integers end at 10^6 - above that values are uninterpreted tokens - so the clamp interval is chosen with a zero
         # high byte and a small second byte; words that still leave the domain are only required to be present)
         lo, hi = rng.choice([(0, 14), (0, 7), (0, 12), (0, 3)])
-        shifts = [(rng.choice([1, 4, 7, 9, 12]) if ch % 4 < 2 else rng.choice([0, 3, 9, 14]) if ch % 4 == 2 else 0) for ch in range(n)] if per_channel else [rng.choice([1, 4, 9])]
-        mults = [rng.choice([1, 3, 100, 1234, 77]) for _ in range(n)] if per_channel else [rng.choice([3, 1234])]
+        # (per-channel parameters for n channels, or for 2-3 times as many: the setup then carries the first n, the rest is programmed at launch)
+        nch = n * (rng.choice([1, 1, 2, 3]) if per_channel and n % 4 == 0 else 1)
+        shifts = [(rng.choice([1, 4, 7, 9, 12]) if ch % 4 < 2 else rng.choice([0, 3, 9, 14]) if ch % 4 == 2 else 0) for ch in range(nch)] if per_channel else [rng.choice([1, 4, 9])]
+        mults = [rng.choice([1, 3, 100, 1234, 77]) for _ in range(nch)] if per_channel else [rng.choice([3, 1234])]
         zpa, zpb = rng.choice([0, 3, -5, 127]), rng.choice([0, -7, 9, 100])
         fs, fm = (shifts if per_channel else shifts * n), (mults if per_channel else mults * n)
         csr0 = ((lo % 256) << 24) | ((hi % 256) << 16) | ((zout % 256) << 8) | (zin % 256)
